@@ -508,3 +508,11 @@ B('d6_b_xml_module_template_two_roots', ['C09'], 'R09.c', (E, _AFTER_DEFAULT_MIM
   (E, _XML_BODY, "        return _XML_SHAPE.format(**self.to_escaped_dict())\n"))
 B('d6_b_xml_generated_elements_unclosed', ['C09'], 'R09.c', (E, _AFTER_DEFAULT_MIME, _AFTER_DEFAULT_MIME + _XML_FIELDS_CONST),
   (E, _XML_BODY, _XML_GENERATED.replace("'<{0}>{{{0}}}</{0}>'.format(name)", "'<{0}>{{{0}}}<{0}/>'.format(name)")))
+T('d6_t_server_error_init_pops_detail_and_hands_it_on', ['C09'],
+  (E, "    def __init__(self, detail=None, **kwargs):\n        self.exc_info = kwargs.pop('exc_info', None)\n        super(InternalServerError, self).__init__(detail, **kwargs)\n",
+      "    def __init__(self, *args, **kwargs):\n        self.exc_info = kwargs.pop('exc_info', None)\n        message = kwargs.pop('message', self.message)\n"
+      "        super(InternalServerError, self).__init__(*args, message=message, **kwargs)\n"))
+B('d6_b_server_error_init_pops_message_and_keeps_it', ['C09'], 'R09.a',
+  (E, "    def __init__(self, detail=None, **kwargs):\n        self.exc_info = kwargs.pop('exc_info', None)\n        super(InternalServerError, self).__init__(detail, **kwargs)\n",
+      "    def __init__(self, *args, **kwargs):\n        self.exc_info = kwargs.pop('exc_info', None)\n        message = kwargs.pop('message', self.message)\n"
+      "        super(InternalServerError, self).__init__(*args, **kwargs)\n"))
